@@ -11,14 +11,25 @@ CFG = dict(
                    "blocks); C03_block_index_exact (BlockIndex.Get answers exactly for the block's rows, hash injective); "
                    "C03_diagnose_clean (model of diagnoseCommit reports nothing on a sound table); C03_row_addr(_table). "
                    "Model tied to pkg/ingest, objects.BlockIndex, doctor by differential execution with full read-back.",
-        level_note="Theorems are about coq/model/{Sorter,Ingest}.v (hand transliteration); producers modelled: ingest and the "
-                   "sorter path shared by merge/doctor re-ingest; ObjectReceiver (C07 harness) and the byte-level agreement "
-                   "of IndexBlock/IndexBlockFromBytes (checked here by running ingest.IndexTable) are not modelled.",
+        level_note="Theorems are about coq/model/{Sorter,Ingest}.v (hand transliteration). Producers covered BY THEOREM: ingest "
+                   "(C03_ingest_wf) and any rows handed to a sorter then IngestTableFromSorter/Blocks (C03_sorter_any_rows_wf, the "
+                   "path shared by merge commit and doctor re-ingest). Covered BY CORRESPONDENCE with the same oracle and the same "
+                   "model path: merge commit (real merge.Merger + the steps of commitMergeResult; the model ingests the three-way "
+                   "merge computed by the harness), doctor re-ingest (doctor.Diagnose/Resolve on a hand-written damaged table), "
+                   "receipt over the wire (ObjectSender -> packfile -> ObjectReceiver: correspondence only, the receiver is not "
+                   "modelled). Byte-level agreement of IndexBlock/IndexBlockFromBytes is checked by running ingest.IndexTable and "
+                   "re-indexing every block, not modelled.",
         rule="witnesses of the repaired defects (table-index key from a discarded duplicate, first row all-empty diagnosed as "
              "duplicate, empty key); sizes N*255+r for N in 0..3(4) and r in {0,1,127,254} shuffled, with duplicates of the rows "
              "around every block boundary prepended/appended, run sizes 1/64/4096/huge, workers 1/3/4/8/16; all C01 random "
              "configurations, one third through Sorter.AddRow + Inserter.IngestTableFromSorter (cells with CRLF allowed); "
-             "wrgl commit + doctor over the repository. forced worker schedules as in C01; one table of 1025 blocks (261121 rows; thorough also 1023 and 1024 blocks) read back through objects.GetTable with counts only; distinct = distinct case text; non-trivial = at least two rows",
+             "wrgl commit + doctor over the repository. forced worker schedules as in C01; one table of 1025 blocks (261121 rows; thorough also 1023 and 1024 blocks) read back through objects.GetTable with counts only; "
+             "merge results (kind 4): base + 2 branches of 6..600 rows over (a,b,c) key a with non-conflicting edits (modified/removed/"
+             "added by one branch or identically by both, forced at keys 253..256 and 509..511), workers 1/3/4/6/8 incl. forced "
+             "schedules; doctor re-ingest (kind 5): sorted tables of 3..520 rows with rows stored twice (also across the 255/510 block "
+             "boundaries) and keys stored twice with different contents, keyed and keyless; receipt (kind 6): C01 random tables sent "
+             "with max packfile size default/1/4096/1MiB into an empty store. "
+             "distinct = distinct case text; non-trivial = at least two rows",
         trusted=["hashes never enter the model: the harness recomputes MeowHash of the StrList encoding of every key/row and "
                  "maps each index entry back to the row it denotes",
                  "rows whose key occurs with two different contents inside ONE run are compared by key only (unstable sort)",
